@@ -303,7 +303,28 @@ func (fr *Frame) execGo(in *ssa.Go) {
 			}
 		}
 	}
-	if c := fr.R.Contract; c != nil {
+	if c := fr.C; c != nil {
+		var gnames []string
+		for _, n := range names {
+			gnames = append(gnames, "go:"+n)
+		}
+		for _, aa := range c.Asserts {
+			if nameMatches(gnames, aa.Callee) {
+				ctx := fr.ctxHere()
+				goal := Implies(fr.cur, ctx.Bool(aa.Clause.E))
+				fr.R.addObl("assert", aa.Callee+":"+aa.Clause.Label, goal, aa.Clause.Src, &aa.Clause, in.Pos())
+				fr.R.addCover("assert-"+aa.Clause.Label+"-reachable", fr.cur)
+			}
+		}
+		for _, oc := range c.OnCalls {
+			if nameMatches(gnames, oc.Callee) {
+				ctx := fr.ctxHere()
+				v := ctx.Eval(oc.E)
+				fr.st.ghost["gv."+oc.Var] = fr.define("gv."+oc.Var, ctx.term(v))
+			}
+		}
+	}
+	if c := fr.R.Contract; c != nil && fr.isUnitCode() {
 		for _, tr := range c.Tracks {
 			if nameMatches(names, tr.Callee) || nameMatches(names, strings.TrimPrefix(tr.Callee, "go:")) && strings.HasPrefix(tr.Callee, "go:") {
 				fr.logCall(tr.Alias, cc, Val{Tuple: []Val{}})
